@@ -21,6 +21,7 @@ ASSUMPTIONS = [
     "constructs and places outside the enumerated lists are not explored",
 ]
 VM_SLACK = 1000 + 16
+AUX_SLACK = 1000
 RE_SLACK = 100 + 116
 ABORT_AFTER = 20000
 
@@ -102,6 +103,8 @@ REGEXES = {
     "lookahead-in-loop": ("^(?:(?=a)a|a)*$", "a" * 40 + "!"),
     "lookbehind-in-loop": ("^(?:a(?<=a)|a(?<=a))*b", "a" * 40),
     "backreference-loop": ("^(a*)(?:\\1a|a)*$", "a" * 40 + "!"),
+    # no single attempt is long: 25 000 start positions, each failing after a few steps
+    "many-short-attempts": ("a(?:b|c)d", "a" * 25000),
 }
 RE_APIS = {
     "test": "var re = /{P}/; re.test({S});",
@@ -142,14 +145,22 @@ def run_deadline(payload):
     from mc.props.common import engine
     e = engine()
     T = payload["T"]
-    st = {"vm": 0, "re": 0, "cur": None, "run": 0, "total": 0}
+    st = {"vm": 0, "re": 0, "cur": None, "run": 0, "total": 0, "aux": 0, "main": None}
     C = e.CLOCK
 
     def vmhook(vm):
         C.now += 1.0
+        if st["main"] is None:
+            st["main"] = vm
         if C.now > T + start[0]:
-            st["vm"] += 1
-            if st["vm"] > ABORT_AFTER:
+            # the evaluation's interpreter and the nested-eval interpreters share one polled instruction counter; the
+            # interpreter the Function constructor uses to materialise a closure (a handful of steps per construction, no
+            # script code) is counted separately
+            if vm is st["main"] or getattr(vm, "nested", False):
+                st["vm"] += 1
+            else:
+                st["aux"] += 1
+            if st["vm"] + st["aux"] > ABORT_AFTER:
                 raise e.Abort()
 
     def rehook(rvm, loop):
@@ -184,8 +195,8 @@ def run_deadline(payload):
         if payload.get("advance"):
             C.now += payload["advance"]           # time passes between the evals
         start[0] = C.now
-        st["vm"] = st["re"] = st["run"] = st["total"] = 0
-        st["cur"] = None
+        st["vm"] = st["re"] = st["run"] = st["total"] = st["aux"] = 0
+        st["cur"] = st["main"] = None
         try:
             r = ctx.eval(payload["src"])
             oc = "returned " + repr(r)[:40]
@@ -207,9 +218,11 @@ def run_deadline(payload):
     if oc == "time":
         if st["vm"] > VM_SLACK:
             oc = "time, but %d interpreter steps after the deadline (> %d)" % (st["vm"], VM_SLACK)
+        elif st["aux"] > AUX_SLACK:
+            oc = "time, but %d steps of Function-constructor interpreters after the deadline (> %d)" % (st["aux"], AUX_SLACK)
         elif st["re"] > RE_SLACK:
             oc = "time, but one regex run took %d steps after the deadline (> %d)" % (st["re"], RE_SLACK)
-        elif st["vm"] + st["total"] == 0:
+        elif st["vm"] + st["aux"] + st["total"] == 0:
             oc = "time, but raised before the deadline"
     if how_re == "none" and payload.get("regex"):
         oc += " [no regex hook]"
